@@ -29,7 +29,8 @@ fn crc32_of(a: &[u8]) -> u32 {
 // C02-E / C03-B: stream header bytes = spec layout, and the crate's parser accepts them with the same check type.
 //@ {"name":"c02e_stream_header_rt","props":["C02","C03"],"obligation":"C02-E","timeout":600,"functions":["xz::writer::XZWriter::new","xz::writer::XZWriter::write_stream_header","xz::reader::StreamHeader::parse"],"bounds":"check type CRC32 (concrete); unwind 14","assumes":[]}
 fn stream_header_rt(ct: CheckType) {
-    let mut w = XZWriter::new(Sink::<16>::new(), opts(ct, 4096)).unwrap();
+    let mut sink = Sink::<16>::new();
+    let mut w = XZWriter::new(&mut sink, opts(ct, 4096)).unwrap();
     assert!(w.write_stream_header().is_ok());
     assert!(w.compressed_bytes_written.get() == 12);
     let (bytes, len) = { let s = w.original_writer.borrow(); (s.buf, s.len) };
@@ -78,7 +79,8 @@ fn spec_dict_size(prop: u8) -> u64 {
 #[kani::unwind(42)]
 fn c02c_xz_dict_prop_covers() {
     let d: u32 = kani::any();
-    let w = XZWriter::new(Sink::<1>::new(), opts(CheckType::None, 4096)).unwrap();
+    let mut sink = Sink::<1>::new();
+    let w = XZWriter::new(&mut sink, opts(CheckType::None, 4096)).unwrap();
     match w.encode_lzma2_dict_size(d) {
         Ok(p) => {
             assert!(p <= 40);
@@ -136,7 +138,8 @@ fn block_header_rt(k: Option<u8>, valid_only: bool, dict_symbolic: bool) {
         o.filters.push(FilterConfig { filter_type: ft, property: p });
     }
     let all_valid = k.is_none() || filter_valid(ft, p);
-    let w = XZWriter::new(Sink::<24>::new(), o);
+    let mut sink = Sink::<24>::new();
+    let w = XZWriter::new(&mut sink, o);
     let mut w = match w {
         Ok(w) => w,
         Err(_) => {
@@ -276,7 +279,8 @@ fn c19b_filter_count_limit() {
         o.filters.push(FilterConfig { filter_type: FilterType::Delta, property: 1 });
         i += 1;
     }
-    let r = XZWriter::new(Sink::<1>::new(), o);
+    let mut sink = Sink::<1>::new();
+    let r = XZWriter::new(&mut sink, o);
     assert!(r.is_ok() == (n <= 3), "C19-B: filter count limit");
     kani::cover!(n == 3, "three pre-filters accepted");
     kani::cover!(n == 4, "four refused");
@@ -292,7 +296,8 @@ fn c18a_block_size_clamp() {
     let dict: u32 = kani::any();
     let mut o = opts(CheckType::None, dict);
     o.block_size = NonZeroU64::new(bs);
-    let w = XZWriter::new(Sink::<1>::new(), o).unwrap();
+    let mut sink = Sink::<1>::new();
+    let w = XZWriter::new(&mut sink, o).unwrap();
     let got = w.options.block_size.unwrap().get();
     assert!(got >= dict as u64 && got >= bs && (got == bs || got == dict as u64));
     kani::cover!(bs < dict as u64, "raised to the dictionary size");
@@ -302,7 +307,8 @@ fn c18a_block_size_clamp() {
 // C02-E / C03-B: index + footer for 0 or 1 records: bytes parse back to the same records, backward size = index size.
 fn index_footer_rt(nrec: usize, small: bool) {
     let ct = ck(1);
-    let mut w = XZWriter::new(Sink::<48>::new(), opts(ct, 4096)).unwrap();
+    let mut sink = Sink::<48>::new();
+    let mut w = XZWriter::new(&mut sink, opts(ct, 4096)).unwrap();
     let u: u64 = kani::any();
     let v: u64 = kani::any();
     kani::assume(u >= 1 && u <= u64::MAX / 2 && v <= u64::MAX / 2);
@@ -362,13 +368,15 @@ fn c02e_index_footer_rt_1() { index_footer_rt(1, false); }
 #[kani::unwind(14)]
 fn c02f_xz_empty_file() {
     let ct = ck(1);
-    let w = XZWriter::new(Sink::<96>::new(), opts(ct, 4096)).unwrap();
+    let mut sink = Sink::<96>::new();
+    let w = XZWriter::new(&mut sink, opts(ct, 4096)).unwrap();
     let sink = w.finish();
     assert!(sink.is_ok());
     let sink = sink.unwrap();
     // reference layout of an empty .xz file: 12 (header) + 8 (empty index) + 12 (footer)
     assert!(sink.len == 32, "C03: empty stream must be header + empty index + footer (32 bytes)");
-    let mut r = crate::xz::XZReader::new(Src::<96>::new(sink.buf, sink.len), false);
+    let mut src = Src::<96>::new(sink.buf, sink.len);
+    let mut r = crate::xz::XZReader::new(&mut src, false);
     let mut out = [0u8; 4];
     let n = r.read(&mut out);
     assert!(matches!(n, Ok(0)), "C02-F: empty XZ file written by XZWriter is not decoded to empty by XZReader");
@@ -404,7 +412,8 @@ impl FinishableWriter for StubStage {
 #[kani::unwind(12)]
 fn c03a_unpadded_size_accounting() {
     let ct = ck(1);
-    let mut w = XZWriter::new(Sink::<64>::new(), opts(ct, 4096)).unwrap();
+    let mut sink = Sink::<64>::new();
+    let mut w = XZWriter::new(&mut sink, opts(ct, 4096)).unwrap();
     let hdr: u64 = kani::any();
     kani::assume(hdr == 12 || hdr == 16 || hdr == 20);
     let tail: usize = kani::any();
@@ -459,7 +468,8 @@ fn c18a_xz_block_size_respected() {
     kani::assume(b >= 4096 && b <= 4104);
     let mut o = opts(CheckType::None, 4096);
     o.block_size = NonZeroU64::new(b);
-    let mut w = XZWriter::new(Sink::<16>::new(), o).unwrap();
+    let mut sink = Sink::<16>::new();
+    let mut w = XZWriter::new(&mut sink, o).unwrap();
     w.header_written = true;
     let s: u64 = kani::any();
     kani::assume(s >= 1 && s < b);
@@ -487,7 +497,8 @@ fn c18a_xz_block_size_respected() {
 #[kani::stub(crate::enc::encoder::LZMAEncoder::new, crate::enc::encoder::verif_stubs_enc::verif_cheap_encoder)]
 fn c03a_block_start_before_header() {
     let ct = ck(1);
-    let mut w = XZWriter::new(Sink::<32>::new(), opts(ct, 4096)).unwrap();
+    let mut sink = Sink::<32>::new();
+    let mut w = XZWriter::new(&mut sink, opts(ct, 4096)).unwrap();
     assert!(w.write_stream_header().is_ok());
     let before = w.compressed_bytes_written.get();
     assert!(w.prepare_next_block().is_ok());
@@ -510,7 +521,8 @@ fn c19b_prefilter_validation() {
     let p: u32 = kani::any();
     let mut o = opts(CheckType::None, 4096);
     o.filters.push(FilterConfig { filter_type: ft, property: p });
-    let r = XZWriter::new(Sink::<1>::new(), o);
+    let mut sink = Sink::<1>::new();
+    let r = XZWriter::new(&mut sink, o);
     assert!(r.is_ok() == filter_valid(ft, p), "C19-B: pre-filter parameter accepted/refused against its documented range");
     kani::cover!(r.is_err() && k == 0, "delta distance refused");
     kani::cover!(r.is_err() && k == 3, "unaligned IA-64 offset refused");
@@ -528,7 +540,7 @@ fn c05d_xz_writer_short_write_counter() {
     sink.chunk = 5; // 12-byte header arrives as 5 + 1(..) pieces; concrete to keep the retry loops cheap (symbolic: 460 s)
     sink.intr_at = kani::any();
     kani::assume(sink.intr_at <= 4);
-    let mut w = XZWriter::new(sink, opts(ck(1), 4096)).unwrap();
+    let mut w = XZWriter::new(&mut sink, opts(ck(1), 4096)).unwrap();
     assert!(w.write_stream_header().is_ok(), "C05-D: short writes / Interrupted must be retried");
     let (bytes, len) = { let s = w.original_writer.borrow(); (s.buf, s.len) };
     assert!(len == 12, "C05-D: stream header incomplete after short writes");
